@@ -217,11 +217,7 @@ fn c13_ratchet_derive_secret_bounded_4() {
         rfc_u32(&mut ctx, generation);
         assert!(p.calls() == 1);
         assert!(p.is(0, Op::Expand, &secret, &rfc_kdf_label(len as u16, label, &ctx), len));
-        assert!(o.len() == len);
-        let i: usize = kani::any();
-        kani::assume(i < len);
-        assert!(o[i] == 1);
-        core::mem::forget(o);
+        assert!(is_out(&o, 1, NH));
     });
     core::mem::forget(rt);
 }
@@ -263,8 +259,8 @@ fn c13_ratchet_next_message_key() {
     let e = p.find(Op::Expand, &secret, &rfc_kdf_label(NK as u16, b"key", &ctx), NK);
     let s = p.find(Op::Expand, &secret, &rfc_kdf_label(NH as u16, b"secret", &ctx), NH);
     assert!(n.is_some() && e.is_some() && s.is_some());
-    assert!(is_out(&k.nonce, n.unwrap(), NN));
-    assert!(is_out(&k.key, e.unwrap(), NK));
+    assert!(is_out(&k.nonce, n.unwrap(), NH));
+    assert!(is_out(&k.key, e.unwrap(), NH));
     assert!(k.generation == j);
     assert!(is_out(&rt.secret, s.unwrap(), NH));
     assert!(rt.generation == j + 1);
@@ -347,8 +343,8 @@ fn first_message_key_case(enc: &[u8], leaf: u32, handshake: bool) {
     let s = p.find(Op::Expand, &used, &rfc_kdf_label(NH as u16, b"secret", &gen0), NH);
     assert!(n.is_some() && e.is_some() && s.is_some());
     assert!(p.calls() == 9);
-    assert!(is_out(&k.nonce, n.unwrap(), NN));
-    assert!(is_out(&k.key, e.unwrap(), NK));
+    assert!(is_out(&k.nonce, n.unwrap(), NH));
+    assert!(is_out(&k.key, e.unwrap(), NH));
     assert!(k.generation == 0);
 
     // tree afterwards: the two copath secrets and the leaf's ratchets
